@@ -14,8 +14,8 @@ REPO = os.environ.get("VERIF_REPO", "/repo")
 LEAN = os.path.join(VERIF, "lean")
 HARNESS = os.path.join(VERIF, "harness")
 TARGET = os.path.join(VERIF, "target")
-MMH = os.path.join(TARGET, "debug", "mmh")
-MMDRIVER = os.path.join(LEAN, ".lake", "build", "bin", "mmdriver")
+BIN = os.path.join(TARGET, "debug")
+LEANBIN = os.path.join(LEAN, ".lake", "build", "bin")
 EVID = os.path.join(VERIF, "evidence")
 REPLAYS = os.path.join(VERIF, "replays")
 ALLOWED_AXIOMS = {"propext", "Classical.choice", "Quot.sound"}
@@ -146,7 +146,8 @@ def prove(ctx, modules, theorem_prefix=None, extra_audit_files=()):
     t0 = time.time()
     pid = ctx.pid
     ok = True
-    p = lake_build(list(modules) + ["mmdriver"])
+    run([sys.executable, os.path.join(VERIF, "tools", "mklake.py")], cwd=VERIF)
+    p = lake_build(list(modules) + [f"drv_{pid.lower()}"])
     if p.returncode != 0:
         # which theorem broke?
         errs = re.findall(r"error: (\S+?):(\d+):\d+: (.*)", p.stdout + p.stderr)
@@ -279,13 +280,14 @@ def strip_lean_comments(s):
 # ---------------------------------------------------------------------------
 # stage 2: harness
 
-def build_harness(ctx):
+def build_harness(ctx, extra_bins=()):
     t0 = time.time()
     lock = os.path.join(HARNESS, "Cargo.lock")
     if not os.path.exists(lock):
         shutil.copy(os.path.join(REPO, "Cargo.lock"), lock)
     env = {"RUSTFLAGS": "--cfg mimium_verif", "CARGO_TARGET_DIR": TARGET}
-    p = run(["cargo", "build", "--offline", "--quiet"], cwd=HARNESS, env=env, timeout=3600)
+    p = run(["cargo", "build", "--offline", "--quiet", "--bin", ctx.pid.lower()] + [x for b in extra_bins for x in ("--bin", b)],
+            cwd=HARNESS, env=env, timeout=3600)
     ctx.coverage["harness_build_s"] = round(time.time() - t0, 1)
     if p.returncode != 0:
         ctx.violation("harness does not build against /repo's current tree (API used by the correspondence changed): "
@@ -296,12 +298,14 @@ def build_harness(ctx):
     return True
 
 
-def mmh(args, input=None, timeout=3600):
-    return run([MMH] + args, input=input, timeout=timeout)
+def mmh(pid, args, input=None, timeout=3600, env=None):
+    """run the harness binary of property `pid` (real code)"""
+    return run([os.path.join(BIN, pid.lower())] + list(args), input=input, timeout=timeout, env=env)
 
 
-def driver(args, input=None, timeout=3600):
-    return run([MMDRIVER] + args, input=input, timeout=timeout)
+def driver(pid, args=(), input=None, timeout=3600):
+    """run the Lean model driver of property `pid`"""
+    return run([os.path.join(LEANBIN, "drv_" + pid.lower())] + list(args), input=input, timeout=timeout)
 
 
 def parallel(jobs, fn, nproc=None):
